@@ -171,7 +171,10 @@ package ipfscluster
 //@ spec func pinsetInv() bool = forall x cid.Cid :: haskey(pinset, x) && pinset[x].ReplicationFactorMin == -1 ==> len(pinset[x].Allocations) == 0
 
 //@ func (c *Cluster) pin
-//@   property C04
+//@   property C04 C03
+// "keeps still-healthy current holders": the allocation of an already pinned CID starts from the STORED pin (its
+// allocations are the current holders), with the requested factors, exclusions and user allocations
+//@   at_call Cluster.allocate assert [current-holders-are-the-stored-pins] currentPin == existing && hash == pin.Cid && rplMin == pin.ReplicationFactorMin && rplMax == pin.ReplicationFactorMax && arg_blacklist == blacklist && prioritylist == pin.UserAllocations
 //@   requires pin != nil
 //@   requires pinsetInv()
 //@   ensures [follower] c.config.FollowerMode ==> err == errFollowerMode && nLogPin == old(nLogPin)
